@@ -39,11 +39,13 @@ def _b(x):
     return "true" if x else "false"
 
 
-def _snap(sn):
-    sup = "; ".join("(%s, %s)" % (_s(d), _z(v)) for d, v in sn["supply"])
-    bal = "; ".join("(%s, %s, %s)" % (_s(a), _s(d), _z(v)) for a, d, v in sn["bal"])
-    adm = "; ".join("(%s, %s)" % (_s(d), "None" if a is None else "Some %s" % _s(a)) for d, a in sn["admin"])
-    return "{| sn_supply := [%s]; sn_bal := [%s]; sn_admin := [%s] |}" % (sup, bal, adm)
+def _raw(sn):
+    return "([%s], [%s], [%s])" % ("; ".join(_z(v) for _, v in sn["supply"]), "; ".join(_z(v) for _, _, v in sn["bal"]),
+                                   "; ".join("None" if a is None else "Some %s" % _s(a) for _, a in sn["admin"]))
+
+
+def _keys(sn):
+    return "([%s], [%s])" % ("; ".join(_s(d) for d, _ in sn["supply"]), "; ".join("(%s, %s)" % (_s(a), _s(d)) for a, d, _ in sn["bal"]))
 
 
 def _target(t):
@@ -75,8 +77,8 @@ def to_coq_case(rec):
     o = rec["obs"]
     steps = []
     for op, ob in zip(rec["input"]["ops"], o["ops"]):
-        steps.append("(%s, %s, %s)" % (_op(op, ob), _b(ob["ok"]), _snap(ob["snap"])))
-    return "([%s], %s, [%s])" % ("; ".join(_s(b) for b in o["blocked"]), _snap(o["init"]), ";\n    ".join(steps))
+        steps.append("(%s, %s, %s)" % (_op(op, ob), _b(ob["ok"]), _raw(ob["snap"])))
+    return "([%s], %s, %s, [%s])" % ("; ".join(_s(b) for b in o["blocked"]), _keys(o["init"]), _raw(o["init"]), ";\n    ".join(steps))
 
 
 def _admin_before(rec):
